@@ -29,7 +29,7 @@ from __future__ import annotations
 from qstatic.alg import Poly, SQ, P
 from qstatic.dom_sym import SymArr, sym_quat, sym_real, arrays_same, first_diff, mk
 from .common import new_interp, sparse_from_dense, planes_of, ref_fro2, run_guarded, short
-from .common2 import indices, maxset, explore_paths, ge_closure, order_facts, is_symarr
+from .common2 import indices, maxset, explore_paths, generic_zero_tests, ge_closure, order_facts, is_symarr
 
 LEVEL = "other"
 EXPLANATION = ("Abstract interpretation (AST only) of every Frobenius entry point, the modulus helpers, the two "
@@ -143,7 +143,7 @@ def check_induced(ctx, f, axis_name):
             sums = [sum((mod[i, j] for j in range(n)), Poly.const(0)) for i in range(m)]
         S = {s.key() for s in sums}
         zero = Poly.const(0).key()
-        paths = explore_paths(lambda ch: new_interp(ctx, chooser=ch)[0], lambda it: it.run(f, [A]))
+        paths = explore_paths(lambda ch: new_interp(ctx, chooser=ch)[0], lambda it: it.run(f, [A]), policy=generic_zero_tests)
         inst = f"{f.name} {m}x{n}: {what} of moduli on every path"
         ok, detail = True, None
         reachable = set()
@@ -159,10 +159,13 @@ def check_induced(ctx, f, axis_name):
             if not M <= (S | {zero}):
                 ok, detail = False, ("result is not a maximum over the expected sums", p.value)
                 break
-            facts, bad = order_facts(p.conds)
+            # (zero / equality tests of data are decided by the policy and analysed through the scenario mechanism: not order facts)
+            order_conds = [c for c in p.conds if not (isinstance(c[0], tuple) and c[0] and c[0][0] in
+                                                      ("eq", "ne", "truth", "any", "all", "not", "and", "or"))]
+            facts, bad = order_facts(order_conds)
             used = {x for fct in facts for x in fct}
             if bad or not used <= (S | {zero}):
-                ok, detail = False, ("comparison between values other than the expected sums", (bad or p.conds)[:2])
+                ok, detail = False, ("comparison between values other than the expected sums", (bad or order_conds)[:2])
                 break
             facts += [(s, zero) for s in S]            # sums of moduli are non-negative
             reach = ge_closure(S | {zero} | M, facts)
